@@ -1,0 +1,323 @@
+//! Verification hooks. Compiled only with `--cfg walrus_verif`; with the flag off this
+//! file is not part of the crate and every call site disappears.
+//!
+//! Nothing in here changes engine behaviour unless a harness explicitly installs a
+//! hook object, enables a gate or sets the clock.
+#![allow(dead_code)]
+
+use std::collections::BTreeMap;
+use std::sync::atomic::{AtomicBool, AtomicU64, Ordering};
+use std::sync::{Arc, Condvar, Mutex, OnceLock, RwLock};
+
+// ---------------------------------------------------------------------------------
+// H1: geometry chosen at build time (unset => the real constants)
+// ---------------------------------------------------------------------------------
+
+pub const fn geom(v: Option<&str>, default: u64) -> u64 {
+    match v {
+        None => default,
+        Some(s) => {
+            let b = s.as_bytes();
+            if b.is_empty() {
+                return default;
+            }
+            let mut i = 0;
+            let mut acc: u64 = 0;
+            while i < b.len() {
+                let c = b[i];
+                assert!(c >= b'0' && c <= b'9', "geometry value must be decimal");
+                acc = acc * 10 + (c - b'0') as u64;
+                i += 1;
+            }
+            acc
+        }
+    }
+}
+
+#[derive(Clone, Copy, Debug)]
+pub struct Geometry {
+    pub block_size: u64,
+    pub blocks_per_file: u64,
+    pub max_alloc: u64,
+    pub max_batch_bytes: u64,
+    pub max_batch_entries: usize,
+    pub prefix_meta_size: usize,
+}
+
+pub fn geometry() -> Geometry {
+    use crate::wal::config::*;
+    Geometry {
+        block_size: DEFAULT_BLOCK_SIZE,
+        blocks_per_file: BLOCKS_PER_FILE,
+        max_alloc: MAX_ALLOC,
+        max_batch_bytes: MAX_BATCH_BYTES,
+        max_batch_entries: MAX_BATCH_ENTRIES,
+        prefix_meta_size: PREFIX_META_SIZE,
+    }
+}
+
+// ---------------------------------------------------------------------------------
+// H6: file-name clock
+// ---------------------------------------------------------------------------------
+
+static CLOCK_MS: AtomicU64 = AtomicU64::new(0);
+
+/// 0 = use the real clock.
+pub fn set_clock(ms: u64) {
+    CLOCK_MS.store(ms, Ordering::SeqCst);
+}
+
+pub(crate) fn clock(real: u128) -> u128 {
+    let c = CLOCK_MS.load(Ordering::SeqCst);
+    if c == 0 { real } else { c as u128 }
+}
+
+// ---------------------------------------------------------------------------------
+// H4: gates for the background (fsync/reclaim) loop and the clean-marker persister
+// ---------------------------------------------------------------------------------
+
+#[derive(Default)]
+struct GateSet {
+    enabled: bool,
+    next_id: u64,
+    // id -> (at_gate, grants)
+    threads: BTreeMap<u64, (bool, u32)>,
+}
+
+struct Gate {
+    st: Mutex<GateSet>,
+    cv: Condvar,
+}
+
+impl Gate {
+    fn new() -> Self {
+        Gate {
+            st: Mutex::new(GateSet::default()),
+            cv: Condvar::new(),
+        }
+    }
+    fn register(&self) -> u64 {
+        let mut g = self.st.lock().unwrap();
+        g.next_id += 1;
+        let id = g.next_id;
+        g.threads.insert(id, (false, 0));
+        id
+    }
+    fn deregister(&self, id: u64) {
+        let mut g = self.st.lock().unwrap();
+        g.threads.remove(&id);
+        self.cv.notify_all();
+    }
+    fn arrive(&self, id: u64) {
+        let mut g = self.st.lock().unwrap();
+        if !g.enabled {
+            return;
+        }
+        if let Some(t) = g.threads.get_mut(&id) {
+            t.0 = true;
+        }
+        self.cv.notify_all();
+        loop {
+            if !g.enabled {
+                break;
+            }
+            match g.threads.get_mut(&id) {
+                Some(t) if t.1 > 0 => {
+                    t.1 -= 1;
+                    break;
+                }
+                Some(_) => {}
+                None => break,
+            }
+            g = self.cv.wait(g).unwrap();
+        }
+        if let Some(t) = g.threads.get_mut(&id) {
+            t.0 = false;
+        }
+    }
+    /// Let every registered thread run exactly one loop iteration and wait until each
+    /// of them is parked at the gate again (or has exited).
+    fn step(&self) {
+        let mut g = self.st.lock().unwrap();
+        if !g.enabled {
+            return;
+        }
+        // wait until all are parked first (fresh threads may not have arrived yet)
+        while g.threads.values().any(|t| !t.0) {
+            g = self.cv.wait(g).unwrap();
+        }
+        for t in g.threads.values_mut() {
+            t.1 += 1;
+        }
+        self.cv.notify_all();
+        // a thread is done when it is parked again with no grant left, or gone
+        loop {
+            if g.threads.values().all(|t| t.0 && t.1 == 0) {
+                break;
+            }
+            g = self.cv.wait(g).unwrap();
+        }
+    }
+    fn set_enabled(&self, on: bool) {
+        let mut g = self.st.lock().unwrap();
+        g.enabled = on;
+        self.cv.notify_all();
+    }
+    fn live(&self) -> usize {
+        self.st.lock().unwrap().threads.len()
+    }
+}
+
+fn bg_gate_obj() -> &'static Gate {
+    static G: OnceLock<Gate> = OnceLock::new();
+    G.get_or_init(Gate::new)
+}
+fn persist_gate_obj() -> &'static Gate {
+    static G: OnceLock<Gate> = OnceLock::new();
+    G.get_or_init(Gate::new)
+}
+
+static BG_FORCE_RECLAIM: AtomicBool = AtomicBool::new(false);
+static BG_SLEEP_MS: AtomicU64 = AtomicU64::new(0);
+
+/// Enable/disable the gates. Must be called before the first instance is created.
+pub fn enable_gates(background: bool, persister: bool) {
+    bg_gate_obj().set_enabled(background);
+    persist_gate_obj().set_enabled(persister);
+    BG_FORCE_RECLAIM.store(background, Ordering::SeqCst);
+}
+
+/// Override the background loop's sleep (0 = keep the engine's value).
+pub fn set_bg_sleep_ms(ms: u64) {
+    BG_SLEEP_MS.store(ms, Ordering::SeqCst);
+}
+
+pub struct GateTicket {
+    id: u64,
+    persister: bool,
+}
+impl Drop for GateTicket {
+    fn drop(&mut self) {
+        if self.persister {
+            persist_gate_obj().deregister(self.id);
+        } else {
+            bg_gate_obj().deregister(self.id);
+        }
+    }
+}
+
+/// Called by the creating thread, before the background thread is spawned.
+pub(crate) fn bg_register() -> GateTicket {
+    GateTicket {
+        id: bg_gate_obj().register(),
+        persister: false,
+    }
+}
+pub(crate) fn persister_register() -> GateTicket {
+    GateTicket {
+        id: persist_gate_obj().register(),
+        persister: true,
+    }
+}
+
+/// Loop head of the background thread. When gated, the iteration that follows performs
+/// the periodic cleanup (pending deletions) instead of waiting for the 1000th tick.
+pub(crate) fn bg_gate(t: &GateTicket, tick: &AtomicU64) {
+    bg_gate_obj().arrive(t.id);
+    if BG_FORCE_RECLAIM.load(Ordering::SeqCst) {
+        tick.store(999, Ordering::SeqCst);
+    }
+}
+pub(crate) fn bg_sleep_ms(engine_ms: u64) -> u64 {
+    let o = BG_SLEEP_MS.load(Ordering::SeqCst);
+    if o == 0 { engine_ms } else { o }
+}
+pub(crate) fn persist_gate(t: &GateTicket) {
+    persist_gate_obj().arrive(t.id);
+}
+
+/// One iteration of every live background loop (flush, collect deletion requests,
+/// perform pending deletions).
+pub fn bg_step() {
+    bg_gate_obj().step();
+}
+/// One iteration of every live clean-marker persister thread.
+pub fn persist_step() {
+    persist_gate_obj().step();
+}
+pub fn live_persisters() -> usize {
+    persist_gate_obj().live()
+}
+
+// ---------------------------------------------------------------------------------
+// H2 / H3: scheduling points, I/O events and fault answers, routed to a harness object
+// ---------------------------------------------------------------------------------
+
+#[derive(Debug)]
+pub enum Io<'a> {
+    /// positional write through the storage layer (mmap copy or pwrite)
+    Write { path: &'a str, off: u64, data: &'a [u8], osync: bool },
+    /// flush of a storage object (fsync / msync)
+    Flush { path: &'a str },
+    /// one write of an io_uring batch (issued between BatchSubmit and BatchDone)
+    BatchWrite { path: &'a str, off: u64, data: &'a [u8], idx: usize },
+    BatchSubmit { n: usize },
+    BatchDone,
+    Mkdir { path: &'a str },
+    Create { path: &'a str },
+    SetLen { path: &'a str, len: u64 },
+    FsyncFile { path: &'a str },
+    DirSync { path: &'a str },
+    WriteFile { path: &'a str, data: &'a [u8] },
+    Rename { from: &'a str, to: &'a str },
+    Unlink { path: &'a str },
+}
+
+pub trait Hooks: Send + Sync {
+    /// A scheduling point (the calling thread holds no engine lock unless the name
+    /// says so).
+    fn point(&self, _name: &'static str) {}
+    /// A durable mutation is about to be performed.
+    fn io(&self, _ev: &Io<'_>) {}
+    /// Fault seam: return Some(err) to make the named site fail.
+    fn fault(&self, _site: &'static str) -> Option<std::io::Error> {
+        None
+    }
+    /// Fault seam for io_uring write completions.
+    fn cqe(&self, _idx: usize, res: i32) -> i32 {
+        res
+    }
+}
+
+fn hooks_slot() -> &'static RwLock<Option<Arc<dyn Hooks>>> {
+    static H: OnceLock<RwLock<Option<Arc<dyn Hooks>>>> = OnceLock::new();
+    H.get_or_init(|| RwLock::new(None))
+}
+
+pub fn install_hooks(h: Option<Arc<dyn Hooks>>) {
+    *hooks_slot().write().unwrap() = h;
+}
+
+fn hooks() -> Option<Arc<dyn Hooks>> {
+    hooks_slot().read().ok().and_then(|g| g.clone())
+}
+
+pub(crate) fn point(name: &'static str) {
+    if let Some(h) = hooks() {
+        h.point(name);
+    }
+}
+pub(crate) fn io(ev: Io<'_>) {
+    if let Some(h) = hooks() {
+        h.io(&ev);
+    }
+}
+pub(crate) fn fault(site: &'static str) -> Option<std::io::Error> {
+    hooks().and_then(|h| h.fault(site))
+}
+pub(crate) fn cqe(idx: usize, res: i32) -> i32 {
+    match hooks() {
+        Some(h) => h.cqe(idx, res),
+        None => res,
+    }
+}
